@@ -305,6 +305,113 @@ def _shared_table_chunk(pairs):
     return out
 
 
+# ---- user init code: what one query's init code defines must be invisible to every other query (exec namespace per run)
+INIT_QUERIES = {
+    'D1': ('def helper16(x):\n    return x + "1"', 'select helper16(a1), NR'),
+    'D2': ('def helper16(x):\n    return x + "2"', 'select helper16(a1), NR'),
+    'N': ('', 'select helper16(a1), NR'),                      # alone: a runtime error at record 1 (the name is not defined)
+    'V': ('scale16 = 10', 'select int(a2) * scale16'),
+    'NV': ('', 'select int(a2) * scale16'),                    # alone: an error
+    'I': ('import math as mm16', 'select mm16.floor(float(a2) / 2)'),
+    'NI': ('', 'select mm16.floor(float(a2) / 2)'),            # alone: an error
+    'U': ('def helper16(x):\n    return x + "u"', 'update set a1 = helper16(a1)'),
+    'P': ('', 'select a1, a2'),
+}
+INIT_TABLE = [['ab', '4'], ['cd', '6'], ['ef', '9']]
+
+
+def _init_run(mods, name, iterator=None):
+    rbql, eng = mods[0], mods[1]
+    init, q = INIT_QUERIES[name]
+    out, warnings = [], []
+    try:
+        if iterator is None:
+            rbql.query_table(q, [list(r) for r in INIT_TABLE], out, warnings, user_init_code=init)
+        else:
+            eng.query(q, iterator, eng.TableWriter(out), warnings, None, user_init_code=init)
+        return ['ok', out]
+    except Exception as e:  # noqa
+        return ['err', type(e).__name__, out]
+
+
+def _init_solo(name):
+    return name, _init_run(impl.load(), name)
+
+
+def _init_history_chunk(items):
+    mods = impl.load()
+    eng = mods[1]
+    outp = []
+    for hid, kind, names in items:
+        sigs = []
+        if kind == 'seq':
+            for pos, name in enumerate(names):
+                got = _init_run(mods, name)
+                if got != INIT_SOLO[name]:
+                    sigs.append({'impl': 'py', 'what': 'after history: result differs from running alone (user init code leaks)', 'query': INIT_QUERIES[name][1], 'got': got, 'want': INIT_SOLO[name], 'position': pos, 'history': list(names[:pos])})
+        else:
+            # names = (outer, inner, k): the inner query runs to completion in ANOTHER thread between the k-th and the (k+1)-th get_record of the outer one
+            outer, inner, k = names
+            box = {}
+
+            class Interleaving(eng.TableIterator):
+                def __init__(self):
+                    eng.TableIterator.__init__(self, [list(r) for r in INIT_TABLE], None)
+                    self.calls = 0
+
+                def get_record(self):
+                    self.calls += 1
+                    if self.calls == k + 1:
+                        t = threading.Thread(target=lambda: box.__setitem__('inner', _init_run(mods, inner)))
+                        t.start()
+                        t.join()
+                    return eng.TableIterator.get_record(self)
+
+            got = _init_run(mods, outer, Interleaving())
+            if got != INIT_SOLO[outer]:
+                sigs.append({'impl': 'py', 'what': 'interleaved with a query in another thread: result differs from running alone (user init code leaks)', 'query': INIT_QUERIES[outer][1], 'got': got, 'want': INIT_SOLO[outer], 'other': inner, 'at_record': k})
+            if 'inner' in box and box['inner'] != INIT_SOLO[inner]:       # (an outer query that fails earlier never reaches the k-th read)
+                sigs.append({'impl': 'py', 'what': 'interleaved with a query in another thread: result differs from running alone (user init code leaks)', 'query': INIT_QUERIES[inner][1], 'got': box.get('inner'), 'want': INIT_SOLO[inner], 'other': outer, 'at_record': k, 'role': 'inner'})
+        outp.append((hid, sigs))
+    return outp
+
+
+INIT_SOLO = {}
+
+
+def init_code_histories(run):
+    import itertools
+    import multiprocessing
+    names = sorted(INIT_QUERIES)
+    with multiprocessing.get_context('fork').Pool(len(names), maxtasksperchild=1) as pool:
+        for name, solo in pool.imap_unordered(_init_solo, names, chunksize=1):
+            INIT_SOLO[name] = solo
+    run.traces += len(names)
+    for name in ('N', 'NV', 'NI'):
+        if INIT_SOLO[name][0] != 'err':
+            core.machinery_failure('init-code histories: %s does not fail alone: %r' % (name, INIT_SOLO[name]))
+    for name in ('D1', 'D2', 'V', 'I', 'U', 'P'):
+        if INIT_SOLO[name][0] != 'ok' or len(INIT_SOLO[name][1]) != 3:
+            core.machinery_failure('init-code histories: %s does not succeed alone: %r' % (name, INIT_SOLO[name]))
+    if INIT_SOLO['D1'] == INIT_SOLO['D2']:
+        core.machinery_failure('init-code histories: D1 and D2 are indistinguishable')
+    items = []
+    for n in (2, 3):
+        for h in itertools.product(names, repeat=n):
+            if any(x in ('N', 'NV', 'NI', 'D1', 'D2') for x in h[1:]) or n == 2:
+                items.append((len(items), 'seq', list(h)))
+    for outer in names:
+        for inner in names:
+            for k in (0, 1, 2, 3):
+                items.append((len(items), 'par', [outer, inner, k]))
+    for (hid, kind, h), (_, sigs) in zip(items, par.pmap(_init_history_chunk, items, chunk=40)):
+        run.traces += len(h) if kind == 'seq' else 2
+        run.count(['init-history', kind, h], nontrivial=True)
+        for sig in sigs:
+            run.violation(sig, {'kind': 'init_history', 'mode': kind, 'names': h})
+    run.notes['init_code_histories'] = len(items)
+
+
 FRESH = r'''
 import sys, json
 sys.path.insert(0, %r)
@@ -408,6 +515,7 @@ def check(run):
             if 'machinery' in sig:
                 core.machinery_failure('layout pair: ' + json.dumps(sig))
             run.violation(sig, {'kind': 'layout', 'c1': c1, 'c2': c2, 'style': style})
+    init_code_histories(run)
     # fresh interpreters
     sample = [rnd.choice(hc) for _ in range(12 if quick else 60)]
     for case in sample:
@@ -443,6 +551,15 @@ def replay(path):
                 run.violation(sig, c)
     elif c['kind'] == 'history':
         for hid, sigs in _history_chunk([(1, c['cases'])]):
+            for sig in sigs:
+                run.violation(sig, c)
+    elif c['kind'] == 'init_history':
+        import multiprocessing
+        with multiprocessing.get_context('fork').Pool(4, maxtasksperchild=1) as pool:
+            for name, solo in pool.imap_unordered(_init_solo, sorted(INIT_QUERIES), chunksize=1):
+                INIT_SOLO[name] = solo
+        for hid, sigs in _init_history_chunk([(1, c['mode'], c['names'])]):
+            run.traces += 1
             for sig in sigs:
                 run.violation(sig, c)
     else:
